@@ -553,6 +553,21 @@ Section StreamE2E.
     rewrite (outs_samples rate channels bps ltac:(lia) blocks 0 out Houts), Hcat.
     unfold si, sinfo_of. cbn [si_min_block si_max_block si_rate si_channels si_bps si_md5 i2]. rewrite Htotal. reflexivity.
   Qed.
+  (* in particular every such stream satisfies every clause of the strict validator (C02) *)
+  Corollary stream_strict_ok cfg rate channels bps bs samples bytes (total : nat) :
+    encode_stream_bytes ent qlpc md5 cfg rate channels bps bs samples = Ok bytes ->
+    cfg_max_parameter cfg <= 14 -> In bps [8; 12; 16; 20; 24] -> 1 <= rate < 2 ^ 20 -> 1 <= channels <= 8 ->
+    16 <= bs <= c_MAX_BLOCK_SIZE ->
+    length samples = (total * N.to_nat channels)%nat -> N.of_nat total < 2 ^ 36 ->
+    length (md5 (md5_input bps samples)) = 16%nat -> Forall lt256 (md5 (md5_input bps samples)) ->
+    (forall j b, nth_error (chunks (N.to_nat (bs * channels)) samples) j = Some b ->
+                 block_hyps qlpc cfg (N.of_nat j) channels bps b (length b / N.to_nat channels)) ->
+    strict_ok bytes = true.
+  Proof.
+    intros E H1 H2 H3 H4 H5 H6 H7 H8 H9 H10.
+    destruct (stream_end_to_end cfg rate channels bps bs samples bytes total E H1 H2 H3 H4 H5 H6 H7 H8 H9 H10) as (minf & maxf & H).
+    unfold strict_ok. rewrite H. reflexivity.
+  Qed.
 End StreamE2E.
 
 (* non-vacuity: a configuration, oracles and a stream that meet every hypothesis of stream_end_to_end *)
